@@ -163,6 +163,7 @@ func runResetEq(c *core.Ctx) []core.Obligation {
 		}
 	}
 	obs = append(obs, cutoffAdvance(c))
+	obs = append(obs, cutoffInclusive(c))
 	return obs
 }
 
@@ -234,4 +235,52 @@ func cutoffAdvance(c *core.Ctx) core.Obligation {
 			"nodeCutoff is raised to nextNodeCutoff in "+bad+", not on the branch of Next that has found the walk exhausted (node.parent <= nodeCutoff): when the caller abandons the contents of a range early, ancestors that were never reported fall below the new cut-off and are skipped for every later range")
 	}
 	return core.Ob("R-RESETEQ", construct, "-", "", core.Discharged, fmt.Sprintf("%d assignment(s), each on the exhausted branch of Next", n))
+}
+
+
+// cutoffInclusive (after round-7 seed C11-r7m1, `contents <= c.nodeCutoff` turned into `<` in StartUnion): nodeCutoff
+// is the index of the last node that has been REPORTED, so "already reported" is `node <= nodeCutoff` at every place
+// the iterator asks (the start of a range and each step to a parent). A strict comparison reports the node that
+// equals the cut-off a second time.
+func cutoffInclusive(c *core.Ctx) core.Obligation {
+	const construct = "CellIndexContentsIterator:cutoff-compared-inclusively"
+	n, bad := 0, ""
+	for _, fn := range c.GeoFuncs() {
+		core.AllInstrs(fn, func(in ssa.Instruction) {
+			bo, ok := in.(*ssa.BinOp)
+			if !ok {
+				return
+			}
+			isCut := func(v ssa.Value) bool {
+				fr, ok := core.AsFieldLoad(v)
+				return ok && fr.Name == "nodeCutoff"
+			}
+			var form string
+			switch {
+			case isCut(bo.Y) && !isCut(bo.X):
+				form = bo.Op.String() // x OP cutoff
+			case isCut(bo.X) && !isCut(bo.Y):
+				form = map[string]string{"<": ">", ">": "<", "<=": ">=", ">=": "<=", "==": "==", "!=": "!="}[bo.Op.String()]
+			default:
+				return
+			}
+			switch form {
+			case "<=", ">":
+				n++
+			case "<", ">=":
+				n++
+				if bad == "" {
+					bad = core.FuncName(fn) + " at " + c.Pos(bo.Pos()) + " (node " + form + " nodeCutoff)"
+				}
+			}
+		})
+	}
+	switch {
+	case n < 2:
+		return core.Ob("R-RESETEQ", construct, "-", "", core.Violated, fmt.Sprintf("unresolved anchor: %d comparisons with nodeCutoff found, 2 expected", n))
+	case bad != "":
+		return core.Ob("R-RESETEQ", construct, "-", "", core.Violated,
+			"the duplicate cut-off is compared exclusively in "+bad+": nodeCutoff is the last node already reported, so the node that equals it must count as reported; with a strict comparison its (cell, label) pair is reported a second time when a later range starts at it")
+	}
+	return core.Ob("R-RESETEQ", construct, "-", "", core.Discharged, fmt.Sprintf("%d comparisons, each `node <= nodeCutoff` (or its negation)", n))
 }
